@@ -56,11 +56,11 @@ V(id='c11-lambertw-no-try', prop='C11', file='mpmath/functions/functions.py',
   expect='fire:A-R2:lambertw')
 V(id='c11-exit-conditional', prop='C11', file='mpmath/ctx_mp.py',
   old="""    def __exit__(self, exc_type, exc_val, exc_tb):
-        self.ctx.prec = self.origp
+        self.ctx.prec = self.origp.pop()
         return False""",
   new="""    def __exit__(self, exc_type, exc_val, exc_tb):
         if exc_type is None:
-            self.ctx.prec = self.origp
+            self.ctx.prec = self.origp.pop()
         return False""",
   expect='fire:A-R4:PrecisionManager')
 V(id='c11-setter-rebind', prop='C11', file='mpmath/ctx_mp_python.py',
@@ -1204,10 +1204,7 @@ V(id='c11-decorator-with-self', prop='C11', file='mpmath/ctx_mp.py',
                         return tuple([+a for a in v])
                     return +v
                 return v""",
-  expect='fire:A-R4r:PrecisionManager.__call__.g')
-V(id='c11-shared-manager-attribute', prop='C11', file='mpmath/calculus/polynomials.py',
-  old="    with ctx.extraprec(extraprec):", new="    with ctx._polyroots_manager:",
-  expect='fire:A-R4r:polyroots')
+  expect='silent')  # benign since d9813d0: the saved precisions are a per-object stack
 V(id='c11-benign-local-manager', prop='C11', file='mpmath/calculus/polynomials.py',
   old="    with ctx.extraprec(extraprec):", new="    mgr = ctx.extraprec(extraprec)\n    with mgr:",
   expect='silent')
@@ -1588,3 +1585,20 @@ V(id='c08-nearest-scaling', prop='C08', file='mpmath/libmp/libmpf.py',
 V(id='c08-mpc-real-part-options-dropped', prop='C08', file='mpmath/libmp/libmpc.py',
   old="    rs = to_str(re, dps, **kwargs)", new="    rs = to_str(re, dps)",
   expect='fire:W-R2:mpc_to_str')
+
+# ---- C11 A-R7 / stack form of A-R4 (fixes baa6984, d9813d0) ----
+V(id='c11-diffs-stale-restore', prop='C11', file='mpmath/calculus/differentiation.py',
+  old="            # the consumer may have changed the precision since the\n            # previous derivative was handed out\n            callprec = ctx.prec\n",
+  new="", expect='fire:A-R7:diffs')
+V(id='c11-diffs-save-after-raise', prop='C11', file='mpmath/calculus/differentiation.py',
+  old="            yield +d\n            if k >= n:\n                return",
+  new="            yield +d\n            ctx.prec = callprec\n            if k >= n:\n                return",
+  expect='fire:A-R7:diffs')
+V(id='c11-manager-single-slot', prop='C11', file='mpmath/ctx_mp.py',
+  old="        self.origp.append(self.ctx.prec)", new="        self.origp = self.ctx.prec",
+  expect='fire:A-R4:PrecisionManager')
+V(id='c11-manager-stack-shared', prop='C11', file='mpmath/ctx_mp.py',
+  old="        self.origp = []\n", new="", expect='fire:A-R4:PrecisionManager')
+V(id='c11-manager-exit-peeks', prop='C11', file='mpmath/ctx_mp.py',
+  old="        self.ctx.prec = self.origp.pop()", new="        self.ctx.prec = self.origp[-1]",
+  expect='fire:A-R4:PrecisionManager')
